@@ -170,7 +170,8 @@ Record orc_case := mkCase {
 Definition vset_of (l : list (Z * Z * Z)) : vset :=
   mkV (map (fun x => fst (fst x)) l)
       (fun v => match find (fun x => fst (fst x) =? v) l with Some x => snd (fst x) | None => 0 end)
-      (fun v => match find (fun x => fst (fst x) =? v) l with Some x => snd x | None => 0 end).
+      (fun v => match find (fun x => fst (fst x) =? v) l with Some x => snd x | None => 0 end)
+      (fun _ => 0) (fun _ => 0).
 
 Definition mk_orc_case (accs orcs exts : list Z) (vs : list (Z * Z * Z)) (h t ub : Z) (thr mul frac win : Z)
            (v0 : view) (steps : list (op * Z * list vdelta)) : orc_case :=
